@@ -94,6 +94,10 @@ class Pool:
             else:
                 w["cur"] = None
 
+        for w in active:  # workers kept from a previous map() are already initialised
+            if w["ready"] and w["cur"] is None:
+                give(w)
+
         while done < n:
             conns = [w["conn"] for w in active]
             ready = wait(conns, timeout=5.0)
